@@ -237,7 +237,8 @@ func setupWiring(t *testing.T) *wiringEnv {
 
 type wiringRepr struct {
 	kaseRepr
-	Derived string `json:"derived_trace"`
+	Derived string            `json:"derived_trace"`
+	Env     map[string]string `json:"environment,omitempty"`
 }
 
 // TestWiring: reactions of the real diagnosis fail-safe are revert-to-diagnosis-free
@@ -247,7 +248,7 @@ func TestWiring(t *testing.T) {
 	w := setupWiring(t)
 	rapid.Check(t, func(rt *rapid.T) {
 		s := settings{
-			N:        rapid.SampledFrom([]int{1, 2, 2, 3, 4, 5}).Draw(rt, "n"),
+			N:        rapid.SampledFrom([]int{1, 2, 2, 3, 4, 5, 10, 12}).Draw(rt, "n"),
 			Period:   time.Duration(rapid.SampledFrom([]int{0, 0, 1, 3, 7}).Draw(rt, "period_s")) * time.Second,
 			Interval: time.Duration(rapid.SampledFrom([]int{0, 1, 1, 2}).Draw(rt, "interval_s")) * time.Second,
 			Cooldown: time.Duration(rapid.SampledFrom([]int{0, 2, 5, 300}).Draw(rt, "cooldown_s")) * time.Second,
@@ -258,8 +259,22 @@ func TestWiring(t *testing.T) {
 		}
 		k := kase{S: s, Script: script, Lat: genLatencies(len(script)).Draw(rt, "latencies")}
 		variants := rapid.SliceOfN(rapid.IntRange(0, 2), len(script), len(script)).Draw(rt, "stats-variants")
+		// the settings are decimal integers in environment variables; fixed-width (zero-padded) spellings are the
+		// same numbers
+		env := map[string]string{}
+		spell := func(name string, v int) {
+			f := rapid.SampledFrom([]string{"%d", "%d", "%d", "%02d", "%03d", "%04d"}).Draw(rt, "spelling")
+			env[name] = fmt.Sprintf(f, v)
+			if env[name] != fmt.Sprint(v) {
+				r.Class("a zero-padded setting")
+			}
+		}
+		spell("DIAGNOSIS_FAILSAFE_CONSECUTIVE_N", s.N)
+		spell("DIAGNOSIS_FAILSAFE_MIN_STABLE_SEC", int(s.Period/time.Second))
+		spell("DIAGNOSIS_FAILSAFE_MIN_SEC_BETWEEN_CALLS", int(s.Interval/time.Second))
+		spell("DIAGNOSIS_FAILSAFE_COOLDOWN_SEC", int(s.Cooldown/time.Second))
 		fail := func(tr *trace, format string, a ...any) {
-			rep := wiringRepr{kaseRepr: k.repr(nil)}
+			rep := wiringRepr{kaseRepr: k.repr(nil), Env: env}
 			if tr != nil {
 				rep.Derived = tr.String()
 			}
@@ -272,10 +287,9 @@ func TestWiring(t *testing.T) {
 				rt.Fatalf("VERIF-INFRA: reset: %v", err)
 			}
 		}
-		os.Setenv("DIAGNOSIS_FAILSAFE_CONSECUTIVE_N", fmt.Sprint(s.N))
-		os.Setenv("DIAGNOSIS_FAILSAFE_MIN_STABLE_SEC", fmt.Sprint(int(s.Period/time.Second)))
-		os.Setenv("DIAGNOSIS_FAILSAFE_MIN_SEC_BETWEEN_CALLS", fmt.Sprint(int(s.Interval/time.Second)))
-		os.Setenv("DIAGNOSIS_FAILSAFE_COOLDOWN_SEC", fmt.Sprint(int(s.Cooldown/time.Second)))
+		for name, v := range env {
+			os.Setenv(name, v)
+		}
 		clk := newVClock()
 		tp := w.rt
 		tp.clk, tp.k, tp.variants, tp.idx = clk, k, variants, 0
